@@ -108,6 +108,7 @@ struct GenLimits
     uint64_t max_copy = 5000;
     bool avx512 = false;       // build has the AVX-512 variants
     bool coarse = false;       // ASan flavour: only coarse scheduling exists
+    bool huge = false;         // thorough tier: one op in ~300 is far beyond the usual size bounds (2^13..2^16 rows, trees of 2^9..2^11 rows)
     bool cold = false;         // cold-start run: one run per process, simulated execution before the reference
 };
 
